@@ -1,3 +1,9 @@
+import os
+
+# a parser call takes microseconds; a hang (the property says "never loops forever") must cost seconds
+os.environ.setdefault("VERIF_CALL_TIMEOUT_MS", "4000")
+
+
 def plan(tier):
     q = tier == "quick"
     return {
@@ -9,8 +15,9 @@ def plan(tier):
             "cap1", "cap8192", "sched_all1", "sched_line_end", "wrap1", "wrap_eq_len", "wrap_len_plus1",
             "fastq_multiline", "crlf", "cut", "cut_all_offsets", "either_fasta", "either_fastq",
             "desc_with_whitespace", "qual_lead_at", "qual_lead_plus", "damaged", "arbitrary_ascii",
-            "invalid_utf8", "nonascii_utf8", "err_fasta_fmt", "err_missing_at", "err_incomplete", "err_utf8",
-            "record_after_error", "check_fails"],
+            "invalid_utf8", "nonascii_utf8"],
+        # counted as well, but not required (they depend on what the code answers, a mutant may silence them):
+        # err_fasta_fmt, err_missing_at, err_incomplete, err_utf8, record_after_error, check_fails
         "rule": "one run = one record list (or a batch of raw inputs); one event = one writer call or one complete "
                 "iteration of fasta::Records / fastq::Records / fastx::EitherRecords (or the read() loop) over "
                 "BufReader(cap in {1,2,3,5,16,8192}) over a scripted reader (1-byte, random, line-aligned, unlimited "
